@@ -14,8 +14,8 @@ import (
 	"github.com/gokrazy/rsync/rsyncd"
 	"github.com/gokrazy/rsync/verifharness/core"
 	"github.com/gokrazy/rsync/verifharness/drive"
-	"github.com/gokrazy/rsync/verifharness/sched"
 	rp "github.com/gokrazy/rsync/verifharness/refproto"
+	"github.com/gokrazy/rsync/verifharness/sched"
 	tm "github.com/gokrazy/rsync/verifharness/treemodel"
 )
 
@@ -124,7 +124,7 @@ type c18Scenario struct {
 	bound     int
 	chunking  bool
 	maxExec   int
-	expectErr bool // the session is expected to end with an error (but to end)
+	expectErr bool   // the session is expected to end with an error (but to end)
 	opts      string // "" = -rt; "delete-excl": -rt --delete with 40 exclude rules; "a": -a; "c": -rtc; "sender-fails": a source file that cannot be read
 }
 
